@@ -155,7 +155,8 @@ impl<A: Float> AffFuncG<A> {
 
 impl<A: Float> AffFuncG<A> {
 //@fn src/linalg/affine.rs | impl<A: Float> AffFuncG<A> | subtraction
-//@bodysub matrix[[0, right]] - A::one() => fsub(matrix[[0, right]], A::one())
+//@bodysub? matrix[[0, right]] - A::one() => fsub(matrix[[0, right]], A::one())
+//@bodysub? -A::one() => fneg(A::one())
 //@spec
     requires left < dim, right < dim
     ensures r.ok(), r.mat.ncols() == dim, r.mat.nrows() == 1,
@@ -226,6 +227,209 @@ impl<D: Data<Elem = A>, A: Float + LinalgScalar> AffFuncBase<FunctionT, D> {
             assert forall|x: V| x.len() == self.mat.ncols() implies
                 #[trigger] vadd(mv(self.mat.m() + other.mat.m(), x), self.bias.v() + other.bias.v()) =~= vadd(mv(self.mat.m(), x), self.bias.v()) + vadd(mv(other.mat.m(), x), other.bias.v()) by {
                 lemma_mv_stack(self.mat.m(), other.mat.m(), x);
+            }
+        }
+//@end
+}
+
+// ---- element-wise operators (macro impl_ops!, rule M1: $trt / $mth substituted; rule T1: trait impl methods
+// are verified as inherent methods <op>_ref / <op>_owned)
+impl<S: Data<Elem = A>, A: Float> AffFuncBase<FunctionT, S> {
+
+//@fn src/linalg/impl_ops.rs | impl<S: Data<Elem = A>, A: Float, S2: Data<Elem = A>> $trt<&AffFuncBase<FunctionT, S2>> for &AffFuncBase<FunctionT, S> | $mth | as=add_ref
+//@sigsub fn add_ref(self, => fn add_ref<S2: Data<Elem = A>>(&self,
+//@sigsub Self::Output => AffFuncBase<FunctionT, OwnedRepr<A>>
+//@bodysub $mth => add
+//@spec
+    requires self.ok(), rhs.ok(), self.mat.nrows() == rhs.mat.nrows(), self.mat.ncols() == rhs.mat.ncols()
+    ensures r.ok(), r.mat.nrows() == self.mat.nrows(), r.mat.ncols() == self.mat.ncols(),
+        // coefficient-wise
+        r.mat.m() == madd(self.mat.m(), rhs.mat.m()), r.bias.v() == vadd(self.bias.v(), rhs.bias.v()),
+        forall|x: V| x.len() == self.mat.ncols() ==> #[trigger] r.ap(x) =~= vadd(self.ap(x), rhs.ap(x))
+//@hint start
+        broadcast use axiom_array2_shape;
+        proof {
+            assert forall|x: V| x.len() == self.mat.ncols() implies
+                #[trigger] vadd(mv(madd(self.mat.m(), rhs.mat.m()), x), vadd(self.bias.v(), rhs.bias.v())) =~= vadd(vadd(mv(self.mat.m(), x), self.bias.v()), vadd(mv(rhs.mat.m(), x), rhs.bias.v())) by {
+                lemma_mv_madd(self.mat.m(), rhs.mat.m(), x, self.mat.ncols());
+            }
+        }
+//@end
+
+//@fn src/linalg/impl_ops.rs | impl<S: Data<Elem = A>, A: Float, S2: Data<Elem = A>> $trt<&AffFuncBase<FunctionT, S2>> for &AffFuncBase<FunctionT, S> | $mth | as=sub_ref
+//@sigsub fn sub_ref(self, => fn sub_ref<S2: Data<Elem = A>>(&self,
+//@sigsub Self::Output => AffFuncBase<FunctionT, OwnedRepr<A>>
+//@bodysub $mth => sub
+//@spec
+    requires self.ok(), rhs.ok(), self.mat.nrows() == rhs.mat.nrows(), self.mat.ncols() == rhs.mat.ncols()
+    ensures r.ok(), r.mat.nrows() == self.mat.nrows(), r.mat.ncols() == self.mat.ncols(),
+        // coefficient-wise
+        r.mat.m() == msub(self.mat.m(), rhs.mat.m()), r.bias.v() == vsub(self.bias.v(), rhs.bias.v()),
+        forall|x: V| x.len() == self.mat.ncols() ==> #[trigger] r.ap(x) =~= vsub(self.ap(x), rhs.ap(x))
+//@hint start
+        broadcast use axiom_array2_shape;
+        proof {
+            assert forall|x: V| x.len() == self.mat.ncols() implies
+                #[trigger] vadd(mv(msub(self.mat.m(), rhs.mat.m()), x), vsub(self.bias.v(), rhs.bias.v())) =~= vsub(vadd(mv(self.mat.m(), x), self.bias.v()), vadd(mv(rhs.mat.m(), x), rhs.bias.v())) by {
+                lemma_mv_msub(self.mat.m(), rhs.mat.m(), x, self.mat.ncols());
+            }
+        }
+//@end
+
+//@fn src/linalg/impl_ops.rs | impl<S: Data<Elem = A>, A: Float, S2: Data<Elem = A>> $trt<&AffFuncBase<FunctionT, S2>> for &AffFuncBase<FunctionT, S> | $mth | as=mul_ref
+//@sigsub fn mul_ref(self, => fn mul_ref<S2: Data<Elem = A>>(&self,
+//@sigsub Self::Output => AffFuncBase<FunctionT, OwnedRepr<A>>
+//@bodysub $mth => mul
+//@spec
+    requires self.ok(), rhs.ok(), self.mat.nrows() == rhs.mat.nrows(), self.mat.ncols() == rhs.mat.ncols()
+    ensures r.ok(), r.mat.nrows() == self.mat.nrows(), r.mat.ncols() == self.mat.ncols(),
+        // coefficient-wise
+        r.mat.m() == mmul(self.mat.m(), rhs.mat.m()), r.bias.v() == vmul(self.bias.v(), rhs.bias.v())
+//@end
+
+//@fn src/linalg/impl_ops.rs | impl<S: Data<Elem = A>, A: Float, S2: Data<Elem = A>> $trt<&AffFuncBase<FunctionT, S2>> for &AffFuncBase<FunctionT, S> | $mth | as=div_ref
+//@sigsub fn div_ref(self, => fn div_ref<S2: Data<Elem = A>>(&self,
+//@sigsub Self::Output => AffFuncBase<FunctionT, OwnedRepr<A>>
+//@bodysub $mth => div
+//@spec
+    requires self.ok(), rhs.ok(), self.mat.nrows() == rhs.mat.nrows(), self.mat.ncols() == rhs.mat.ncols(),
+        forall|i: int, j: int| 0 <= i < rhs.mat.nrows() && 0 <= j < rhs.mat.ncols() ==> rhs.mat.m()[i][j] != 0real,
+        forall|i: int| 0 <= i < rhs.bias.v().len() ==> rhs.bias.v()[i] != 0real
+    ensures r.ok(), r.mat.nrows() == self.mat.nrows(), r.mat.ncols() == self.mat.ncols(),
+        // coefficient-wise
+        r.mat.m() == mdiv(self.mat.m(), rhs.mat.m()), r.bias.v() == vdiv(self.bias.v(), rhs.bias.v())
+//@end
+}
+
+impl<S: DataOwned<Elem = A> + DataMut, A: Float> AffFuncBase<FunctionT, S> {
+
+//@fn src/linalg/impl_ops.rs | impl<S: DataOwned<Elem = A> + DataMut, A: Float, S2: Data<Elem = A>> $trt<&AffFuncBase<FunctionT, S2>> for AffFuncBase<FunctionT, S> | $mth | as=add_owned
+//@sigsub fn add_owned(self, => fn add_owned<S2: Data<Elem = A>>(self,
+//@sigsub Self::Output => AffFuncBase<FunctionT, S>
+//@bodysub $mth => add
+//@spec
+    requires self.ok(), rhs.ok(), self.mat.nrows() == rhs.mat.nrows(), self.mat.ncols() == rhs.mat.ncols()
+    ensures r.ok(), r.mat.nrows() == self.mat.nrows(), r.mat.ncols() == self.mat.ncols(),
+        r.mat.m() == madd(self.mat.m(), rhs.mat.m()), r.bias.v() == vadd(self.bias.v(), rhs.bias.v()),
+//@end
+
+//@fn src/linalg/impl_ops.rs | impl<S: DataOwned<Elem = A> + DataMut, A: Float, S2: Data<Elem = A>> $trt<&AffFuncBase<FunctionT, S2>> for AffFuncBase<FunctionT, S> | $mth | as=sub_owned
+//@sigsub fn sub_owned(self, => fn sub_owned<S2: Data<Elem = A>>(self,
+//@sigsub Self::Output => AffFuncBase<FunctionT, S>
+//@bodysub $mth => sub
+//@spec
+    requires self.ok(), rhs.ok(), self.mat.nrows() == rhs.mat.nrows(), self.mat.ncols() == rhs.mat.ncols()
+    ensures r.ok(), r.mat.nrows() == self.mat.nrows(), r.mat.ncols() == self.mat.ncols(),
+        r.mat.m() == msub(self.mat.m(), rhs.mat.m()), r.bias.v() == vsub(self.bias.v(), rhs.bias.v()),
+//@end
+
+//@fn src/linalg/impl_ops.rs | impl<S: DataOwned<Elem = A> + DataMut, A: Float, S2: Data<Elem = A>> $trt<&AffFuncBase<FunctionT, S2>> for AffFuncBase<FunctionT, S> | $mth | as=mul_owned
+//@sigsub fn mul_owned(self, => fn mul_owned<S2: Data<Elem = A>>(self,
+//@sigsub Self::Output => AffFuncBase<FunctionT, S>
+//@bodysub $mth => mul
+//@spec
+    requires self.ok(), rhs.ok(), self.mat.nrows() == rhs.mat.nrows(), self.mat.ncols() == rhs.mat.ncols()
+    ensures r.ok(), r.mat.nrows() == self.mat.nrows(), r.mat.ncols() == self.mat.ncols(),
+        r.mat.m() == mmul(self.mat.m(), rhs.mat.m()), r.bias.v() == vmul(self.bias.v(), rhs.bias.v()),
+//@end
+
+//@fn src/linalg/impl_ops.rs | impl<S: DataOwned<Elem = A> + DataMut, A: Float, S2: Data<Elem = A>> $trt<&AffFuncBase<FunctionT, S2>> for AffFuncBase<FunctionT, S> | $mth | as=div_owned
+//@sigsub fn div_owned(self, => fn div_owned<S2: Data<Elem = A>>(self,
+//@sigsub Self::Output => AffFuncBase<FunctionT, S>
+//@bodysub $mth => div
+//@spec
+    requires self.ok(), rhs.ok(), self.mat.nrows() == rhs.mat.nrows(), self.mat.ncols() == rhs.mat.ncols(),
+        forall|i: int, j: int| 0 <= i < rhs.mat.nrows() && 0 <= j < rhs.mat.ncols() ==> rhs.mat.m()[i][j] != 0real,
+        forall|i: int| 0 <= i < rhs.bias.v().len() ==> rhs.bias.v()[i] != 0real
+    ensures r.ok(), r.mat.nrows() == self.mat.nrows(), r.mat.ncols() == self.mat.ncols(),
+        r.mat.m() == mdiv(self.mat.m(), rhs.mat.m()), r.bias.v() == vdiv(self.bias.v(), rhs.bias.v()),
+//@end
+
+//@fn src/linalg/impl_ops.rs | impl<S: DataOwned<Elem = A> + DataMut, A: Float> Neg for AffFuncBase<FunctionT, S> | neg | as=neg_owned
+//@sigsub Self::Output => AffFuncBase<FunctionT, S>
+//@spec
+    requires self.ok()
+    ensures r.ok(), r.mat.nrows() == self.mat.nrows(), r.mat.ncols() == self.mat.ncols(),
+        r.mat.m() == mneg(self.mat.m()), r.bias.v() == vneg(self.bias.v()),
+        // -f is the point-wise negation
+        forall|x: V| x.len() == self.mat.ncols() ==> #[trigger] r.ap(x) =~= vneg(self.ap(x)),
+//@hint start
+        broadcast use axiom_array2_shape;
+        proof {
+            assert forall|x: V| x.len() == self.mat.ncols() implies
+                #[trigger] vadd(mv(mneg(self.mat.m()), x), vneg(self.bias.v())) =~= vneg(vadd(mv(self.mat.m(), x), self.bias.v())) by {
+                lemma_mv_neg(self.mat.m(), x, self.mat.ncols());
+            }
+        }
+//@end
+}
+
+impl<D: Data<Elem = A> + DataOwned + RawDataClone + DataMut, A: Float + LinalgScalar + Neg> AffFuncBase<FunctionT, D> {
+//@fn src/linalg/affine.rs | impl<D: Data<Elem = A> + DataOwned + RawDataClone + DataMut, A: Float + LinalgScalar + Neg> AffFuncBase<FunctionT, D> | negate
+//@spec
+    requires self.ok()
+    ensures r.ok(), r.mat.nrows() == self.mat.nrows(), r.mat.ncols() == self.mat.ncols(),
+        forall|x: V| x.len() == self.mat.ncols() ==> #[trigger] r.ap(x) =~= vneg(self.ap(x)),
+//@hint start
+        broadcast use axiom_array2_shape;
+        proof {
+            assert forall|x: V| x.len() == self.mat.ncols() implies
+                #[trigger] vadd(mv(mneg(self.mat.m()), x), vneg(self.bias.v())) =~= vneg(vadd(mv(self.mat.m(), x), self.bias.v())) by {
+                lemma_mv_neg(self.mat.m(), x, self.mat.ncols());
+            }
+        }
+//@end
+}
+
+// ---- ownership / type switches keep the coefficients (hence the denoted function / half-spaces)
+impl<I, S: Data<Elem = A>, A: Float> AffFuncBase<I, S> {
+//@fn src/linalg/affine.rs | impl<I, S: Data<Elem = A>, A: Float> AffFuncBase<I, S> | view
+//@spec
+    ensures r.mat.m() == self.mat.m(), r.bias.v() == self.bias.v(), r.mat.nrows() == self.mat.nrows(), r.mat.ncols() == self.mat.ncols()
+//@end
+//@fn src/linalg/affine.rs | impl<I, S: Data<Elem = A>, A: Float> AffFuncBase<I, S> | to_owned
+//@spec
+    ensures r.mat.m() == self.mat.m(), r.bias.v() == self.bias.v(), r.mat.nrows() == self.mat.nrows(), r.mat.ncols() == self.mat.ncols()
+//@end
+}
+impl<D: Data<Elem = A> + RawDataClone, A: Float> AffFuncBase<FunctionT, D> {
+//@fn src/linalg/affine.rs | impl<D: Data<Elem = A> + RawDataClone, A: Float> AffFuncBase<FunctionT, D> | as_polytope
+//@spec
+    ensures r.mat.m() == self.mat.m(), r.bias.v() == self.bias.v(), r.mat.nrows() == self.mat.nrows(), r.mat.ncols() == self.mat.ncols()
+//@end
+}
+impl<D: Data<Elem = A> + RawDataClone, A: Float> AffFuncBase<PolytopeT, D> {
+//@fn src/linalg/affine.rs | impl<D: Data<Elem = A> + RawDataClone, A: Float> AffFuncBase<PolytopeT, D> | as_function
+//@spec
+    ensures r.mat.m() == self.mat.m(), r.bias.v() == self.bias.v(), r.mat.nrows() == self.mat.nrows(), r.mat.ncols() == self.mat.ncols()
+//@end
+//@fn src/linalg/affine.rs | impl<D: Data<Elem = A> + RawDataClone, A: Float> AffFuncBase<PolytopeT, D> | new
+//@spec
+    ensures r.mat == aff.mat, r.bias == aff.bias
+//@end
+}
+
+//@item src/linalg/affine.rs | enum PolyRepr | derive=Clone,Copy
+
+impl<A: Float> AffFuncBase<PolytopeT, OwnedRepr<A>> {
+//@fn src/linalg/affine.rs | impl<A: Float> AffFuncBase<PolytopeT, OwnedRepr<A>> | convert_to
+//@spec
+    requires self.ok()
+    ensures r.ok(), r.mat.nrows() == self.mat.nrows(), r.mat.ncols() == self.mat.ncols(),
+        // every representation describes the same half-spaces {x | M x <= b}, row by row
+        repr == PolyRepr::MatrixLeqBias ==> r.mat.m() == self.mat.m() && r.bias.v() == self.bias.v(),
+        repr == PolyRepr::MatrixBiasLeqZero ==> forall|x: V, i: int| x.len() == self.mat.ncols() && 0 <= i < self.mat.nrows() ==>
+            (#[trigger] r.ap(x)[i] <= 0real <==> dotp(self.mat.m()[i], x, x.len() as int) <= self.bias.v()[i]),
+        repr == PolyRepr::MatrixGeqBias ==> forall|x: V, i: int| x.len() == self.mat.ncols() && 0 <= i < self.mat.nrows() ==>
+            (#[trigger] dotp(r.mat.m()[i], x, x.len() as int) >= r.bias.v()[i] <==> dotp(self.mat.m()[i], x, x.len() as int) <= self.bias.v()[i]),
+        repr == PolyRepr::MatrixBiasGeqZero ==> forall|x: V, i: int| x.len() == self.mat.ncols() && 0 <= i < self.mat.nrows() ==>
+            (#[trigger] r.ap(x)[i] >= 0real <==> dotp(self.mat.m()[i], x, x.len() as int) <= self.bias.v()[i]),
+//@hint start
+        broadcast use axiom_array2_shape;
+        proof {
+            assert forall|x: V, i: int| x.len() == self.mat.ncols() && 0 <= i < self.mat.nrows() implies
+                #[trigger] dotp(mneg(self.mat.m())[i], x, x.len() as int) == -dotp(self.mat.m()[i], x, x.len() as int) by {
+                lemma_dotp_neg_left(self.mat.m()[i], x, x.len() as int);
             }
         }
 //@end
